@@ -309,8 +309,10 @@ def check_cases(ctx, cases):
                 if ml is not None:
                     want_sk = sorted({(fs.expected_ids({"t": "dir", "entries": [[hx(b"x"), n]]})[b"x"][1].hex(), n["size"]) for p, n in fs.walk(want_spec) if n["t"] == "file" and n["size"] > ml})
                     got_sk = sorted((a, b) for a, b in exp["skipped"])
-                    # a skipped duplicate of an exported content (same id) is de-duplicated away
-                    if not set(got_sk) <= set(want_sk) or {a for a, _ in want_sk} - {a for a, _ in got_sk} - {c[0] for c in exp["contents"]}:
+                    # a skipped file whose bytes are also the text of a symbolic link (never subject to the
+                    # limit) has the id of that exported content and is de-duplicated away
+                    link_ids = {hashlib.sha1(b"blob %d\x00" % len(unhx(n["target"])) + unhx(n["target"])).hexdigest() for p, n in fs.walk(want_spec) if n["t"] == "link"}
+                    if not set(got_sk) <= set(want_sk) or {a for a, _ in want_sk} - {a for a, _ in got_sk} - link_ids:
                         ctx.fail(case, "files above the size limit are not exported as skipped contents with the right hashes/length", "skipped-wrong", {"got": got_sk[:4], "want": want_sk[:4]})
         if d is not None and "obs" not in rec:
             rec["error"] = "observation failed"
